@@ -57,6 +57,12 @@ class History:
             # namespace) serve the namespaces that are served anyway and have
             # no handlers of their own; they do not open any further namespace
             global_catchall=rng.random() < 0.3)
+        if self.cfg['global_catchall']:
+            # some namespaces have handlers for their events only and leave
+            # connect / disconnect to the catch-all namespace's handlers
+            for ns in handler_ns:
+                if rng.random() < 0.4:
+                    self.cfg['style'][ns] = 'events_only'
         self.pool = pool
         self.handler_ns = set(handler_ns)
         if self.cfg['global_catchall']:
